@@ -7,6 +7,7 @@ import JmesVerif.Spec.Paren
 import JmesVerif.Spec.Sem
 import JmesVerif.Model.Errors
 import JmesVerif.Model.Registry
+import JmesVerif.Model.SerdeWire
 /-!
 Line-protocol driver for the model side of the correspondence streams (DESIGN §4.2).
 `jmdriver <stream>` reads one case per line on stdin and writes one result line per case.
@@ -234,5 +235,6 @@ def main (args : List String) : IO UInt32 := do
   | ["errfmt"] => loop stdin stdout streamErrfmt; return 0
   | ["registry"] => loop stdin stdout streamRegistry; return 0
   | ["json"] => loop stdin stdout streamJson; return 0
+  | ["serde"] => loop stdin stdout SerdeWire.stream; return 0
   | ["history"] => loop stdin stdout streamHistory; return 0
   | _ => IO.eprintln "usage: jmdriver <stream>"; return 2
